@@ -1,7 +1,7 @@
 /-
   C08 — planned / unplanned / fixed bookkeeping always matches the routes.
   The full statement ("every interleaving of Execute, UnPlan on units and on their members,
-  vehicle-level un-plan …") is FALSE of the code as modelled: three counterexamples below, each a
+  vehicle-level un-plan …") is FALSE of the code as modelled: two counterexamples below, each a
   listed finding replayed on the real code on every run. What is proved: the invariant holds along
   every history over the sub-alphabet `GoodOp` (operations on root units, plan-all units executed
   with exactly their members, nested un-plans never rejected), whatever the feasibility bits are.
@@ -16,18 +16,30 @@ theorem c08_start (U : Units) (h : WFUnits U = true) : BooksOK U (start U) = tru
   NR.Proofs.Coll.start_ok U h
 
 /-- PARTIAL: every state reached from the start state by operations of the sub-alphabet satisfies
-the bookkeeping invariant — for all unit forests, all histories, all outcomes of the checks. -/
+the bookkeeping invariant — for all unit forests, all histories, all outcomes of the checks.
+(`hne`: a plan-all unit without members is never executed — the factory only builds plan-all units
+of at least two members; see `c08_counterexample_empty_all`.) -/
 theorem c08_partial (U : Units) (ops : List COp)
-    (hU : WFUnits U = true) (hops : ∀ op ∈ ops, GoodOp U op = true) :
+    (hU : WFUnits U = true) (hops : ∀ op ∈ ops, GoodOp U op = true)
+    (hne : ∀ p undo, COp.execUnits p [] undo ∉ ops) :
     BooksOK U (runOps U (start U) ops) = true :=
-  NR.Proofs.Coll.reachable_ok U ops hU hops
+  NR.Proofs.Coll.reachable_ok U ops hU hops hne
 
-/-- A rejected operation of the sub-alphabet leaves the bookkeeping state exactly as it was. -/
+theorem c08_partial_nonempty (U : Units) (ops : List COp)
+    (hU : WFUnits U = true) (hops : ∀ op ∈ ops, GoodOp U op = true)
+    (hne : ∀ u, kindOf U u ≠ .all []) :
+    BooksOK U (runOps U (start U) ops) = true :=
+  NR.Proofs.Coll.reachable_ok_of_nonemptyAll U ops hU hops hne
+
+/-- A rejected operation of the sub-alphabet leaves the bookkeeping state as it was — as SETS: the
+Go re-files a unit at the end of its collection, and order inside a collection is explicitly not
+part of "exactly as they were" (`c08_rejected_reorders`). -/
 theorem c08_rejected_unchanged (U : Units) (ops : List COp) (op : COp)
     (hU : WFUnits U = true) (hops : ∀ o ∈ ops, GoodOp U o = true) (hop : GoodOp U op = true)
+    (hin : ∀ u ok, op = .execStops u ok → u < U.kind.length)
     (hrej : (step U (runOps U (start U) ops) op).2 = false) :
-    (step U (runOps U (start U) ops) op).1 = runOps U (start U) ops :=
-  NR.Proofs.Coll.rejected_unchanged U ops op hU hops hop hrej
+    NR.Proofs.Coll.CStateEquiv (step U (runOps U (start U) ops) op).1 (runOps U (start U) ops) :=
+  NR.Proofs.Coll.rejected_unchanged U ops op hU hops hop hin hrej
 
 def exOneOf : Units := { kind := [.oneOf [1, 2], .stops, .stops], parent := [none, some 0, some 0], fixed := [false, false, false] }
 def exAll : Units := { kind := [.all [1, 2], .stops, .stops, .stops], parent := [none, some 0, some 0, none], fixed := [false, false, false, false] }
@@ -46,13 +58,28 @@ theorem c08_counterexample_member_unplan :
       [.execUnits 0 [(1, true), (2, true)] [], .unplanStops 1 true]) = false := by
   decide
 
-/-- Finding: `SolutionVehicle.Unplan` files members of units-units on their own; when the
-un-plan is rejected they end up listed as planned. -/
-theorem c08_counterexample_vehicle_unplan :
-    WFUnits exAll = true ∧
+/-- Repaired (`fixed: property=C08` in KNOWN_FINDINGS.txt): `SolutionVehicle.Unplan` used to file
+members of units-units on their own; with the repair a vehicle un-plan of a whole group keeps the
+books right, accepted or rejected. -/
+theorem c08_vehicle_unplan_example :
     BooksOK exAll (runOps exAll (start exAll)
-      [.execUnits 0 [(1, true), (2, true)] [], .vehicleUnplan [1, 2] false]) = false := by
+      [.execUnits 0 [(1, true), (2, true)] [], .vehicleUnplan [1, 2] false]) = true ∧
+    BooksOK exAll (runOps exAll (start exAll)
+      [.execUnits 0 [(1, true), (2, true)] [], .vehicleUnplan [1, 2] true]) = true := by
   decide
+
+def exEmptyAll : Units := { kind := [.all []], parent := [none], fixed := [false] }
+
+/-- Why `hne` is needed: a plan-all unit with no members is filed as planned but is never planned. -/
+theorem c08_counterexample_empty_all :
+    WFUnits exEmptyAll = true ∧ GoodOp exEmptyAll (.execUnits 0 [] []) = true ∧
+    BooksOK exEmptyAll (runOps exEmptyAll (start exEmptyAll) [.execUnits 0 [] []]) = false := by decide
+
+/-- Why `c08_rejected_unchanged` is stated up to permutation. -/
+theorem c08_rejected_reorders :
+    GoodOp exAll (.execUnits 0 [(2, true), (1, false)] [true]) = true ∧
+    step exAll (start exAll) (.execUnits 0 [(2, true), (1, false)] [true]) = ({ unplanned := [3, 0] }, false) ∧
+    (start exAll).unplanned = [0, 3] := by decide
 
 /-! Non-vacuity: a history of the sub-alphabet with accepted and rejected steps. -/
 example : (∀ op ∈ [COp.execUnits 0 [(2, true), (1, false)] [true], .execUnits 0 [(1, true), (2, true)] [],
@@ -63,7 +90,10 @@ end NR.Props.C08
 
 #print axioms NR.Props.C08.c08_start
 #print axioms NR.Props.C08.c08_partial
+#print axioms NR.Props.C08.c08_partial_nonempty
+#print axioms NR.Props.C08.c08_counterexample_empty_all
+#print axioms NR.Props.C08.c08_rejected_reorders
 #print axioms NR.Props.C08.c08_rejected_unchanged
 #print axioms NR.Props.C08.c08_counterexample_oneof
 #print axioms NR.Props.C08.c08_counterexample_member_unplan
-#print axioms NR.Props.C08.c08_counterexample_vehicle_unplan
+#print axioms NR.Props.C08.c08_vehicle_unplan_example
